@@ -268,9 +268,10 @@ def gen_modules(rng, tier):
         vals = spread_values(rng, nr + rng.range(0, 5))
         root, adds = vals[:nr], sorted(vals[nr:])
         ext = bool(adds) or rng.chance(1, 2)
-        if adds and min(adds) < max(root):
-            # keep the random ones inside the domain where asn1c's table is right (additional values above the root)
-            adds = [max(root) + 1 + j * 3 for j in range(len(adds))]
+        if adds and (min(adds) < max(root) or min(adds) < 0):
+            # keep the random ones inside the domain where asn1c's table is right (additional values above the root) and
+            # non-negative (a negative first additional value is rejected: known finding C11-enum-ext-first-negative)
+            adds = [max(max(root), -1) + 1 + j * 3 for j in range(len(adds))]
         add_type(m, "Rnd%d" % i, enum_type(root, ext=ext, addvals=adds))
     for i, tg in enumerate(TAGS):
         add_type(m, "Tg%d" % i, enum_type([7, -2, 300], ext=(i % 2 == 0), addvals=[1000] if i % 2 == 0 else [], tag=tg))
@@ -314,7 +315,7 @@ def gen_modules(rng, tier):
                 if kind == 0:
                     t = enum_type(spread_values(rng, rng.range(1, 6)), ext=rng.chance(1, 3))
                     if t["ext"] and rng.chance(1, 2):
-                        t["adds"] = [("x0", max(v for _, v in t["root"]) + 5)]
+                        t["adds"] = [("x0", max(max(v for _, v in t["root"]), 0) + 5)]       # not negative: C11-enum-ext-first-negative
                 elif kind == 1:
                     t = bits_type(rng.choice(SIZE_SHAPES[:19]), named=NAMED if rng.chance(1, 4) else None)
                 elif kind == 2:
